@@ -185,3 +185,40 @@ def deep_results(obj, _seen=None, depth=0):
     elif hasattr(obj, '__dict__'):
         for k, x in vars(obj).items():
             yield from deep_results(x, _seen, depth + 1)
+
+
+# ------------------------------------------------------------------ histories on one planner object
+REUSE_HISTORIES = [
+    ['WITH recent AS (SELECT * FROM int1.tbl1 WHERE a > 1) SELECT * FROM recent r JOIN int2.tbl2 t ON r.id = t.id', 'SELECT * FROM recent WHERE id > 5',
+     'SELECT * FROM recent r JOIN int2.tbl2 t ON r.id = t.id', 'SELECT x FROM recent WHERE x > 1'],
+    ['WITH t AS (SELECT a FROM int1.tbl1) SELECT * FROM t JOIN int2.tbl2 AS t2 ON t.a = t2.a', 'SELECT x FROM t WHERE x > 1', 'SELECT a FROM int1.t'],
+    ['SELECT * FROM int1.tbl1 AS t JOIN mindsdb.pred AS m USING partition_size = 10', 'SELECT * FROM int1.tbl1 AS t JOIN int2.tbl2 AS t2 ON t.id = t2.id', 'SELECT * FROM int1.tbl1 AS t JOIN mindsdb.pred AS m'],
+    ['SELECT * FROM int1.tbl1 t1 JOIN int2.tbl2 t2 ON t1.id = t2.id WHERE t1.a = 1 LIMIT 3', 'SELECT * FROM int1.tbl1 t1 JOIN int2.tbl2 t2 ON t1.id = t2.id', 'SELECT a FROM int1.tbl1 WHERE b = 1'],
+    ['SELECT * FROM mindsdb.pred.3 WHERE x = 1', 'SELECT * FROM mindsdb.pred WHERE x = 1', 'SELECT * FROM int1.tbl1 AS t JOIN mindsdb.pred AS m'],
+]
+
+
+def reuse_history_problems():
+    """every statement of a sequence planned with ONE QueryPlanner (planner.from_query(stmt), the documented re-use) must get the plan it gets from a
+    fresh planner over a fresh copy of the catalog; returns [(sql, description)]"""
+    from mindsdb_sql import parse_sql
+    from mindsdb_sql.planner.query_planner import QueryPlanner
+    out = []
+    for seq in REUSE_HISTORIES:
+        try:
+            planner = QueryPlanner(parse_sql('select 1'), **copy.deepcopy(catalogs()['names']))
+        except Exception:
+            continue
+        for i, sql in enumerate(seq):
+            try:
+                fresh = QueryPlanner(parse_sql(sql), **copy.deepcopy(catalogs()['names'])).from_query()
+                want = [repr(s_) for s_ in fresh.steps]
+            except Exception as e:
+                want = f'{type(e).__name__}'
+            try:
+                got = [repr(s_) for s_ in planner.from_query(parse_sql(sql)).steps]
+            except Exception as e:
+                got = f'{type(e).__name__}'
+            if got != want:
+                out.append((sql, f'planned on a planner that planned {seq[:i]} before: {str(got)[:200]}; planned alone: {str(want)[:200]}'))
+    return out
